@@ -207,8 +207,24 @@ func (env *Env) c07StatusDecoder() {
 				}
 				for _, side := range p.Args {
 					x := flow.StripConv(side)
+					if x.Op == flow.OpPhi {
+						// an element read at a variable index: the initialiser's constants
+						// joined with the element's own place
+						var place *flow.Term
+						consts := true
+						for _, arm := range x.Args {
+							if ar := flow.StripConv(arm); ar.Op == flow.OpIndex {
+								place = ar
+							} else if ar.Op != flow.OpConst {
+								consts = false
+							}
+						}
+						if place != nil && consts {
+							x = place
+						}
+					}
 					if x.Op == flow.OpIndex {
-						if gt := flow.StripConv(x.Args[0]); gt.Op == flow.OpGlobal || (gt.Op == flow.OpDeref && flow.StripConv(gt.Args[0]).Op == flow.OpAddrG) {
+						if gt := flow.StripConv(x.Args[0]); gt.Op == flow.OpGlobal || gt.Op == flow.OpAddrG || (gt.Op == flow.OpDeref && flow.StripConv(gt.Args[0]).Op == flow.OpAddrG) {
 							name := gt.Name
 							if gt.Op == flow.OpDeref {
 								name = flow.StripConv(gt.Args[0]).Name
@@ -284,6 +300,9 @@ func (env *Env) c07StatusDecoder() {
 			if st, ok := in.(*ssa.Store); ok && st.Addr == ssa.Value(fn.Params[0]) {
 				v := e.Eval(st.Val, e.Root(fn))
 				if pat.Conv(pat.Res("0", unq))(v, pat.Bind{}) {
+					stored = true
+				} else if env.guardHas(e, fn, st.Block(), pat.Bin("==", pat.Conv(pat.Is(v)), pat.Conv(pat.Res("0", unq)))) {
+					// a table entry found equal to the unquoted input
 					stored = true
 				} else {
 					r.Fail("C07/DECODER", "status-stored", env.P.Pos(st.Pos()), "the decoded status must be the unquoted input itself; stores "+v.String())
